@@ -56,6 +56,8 @@ class Ctx:
         self.samples = []
         self.violations = []             # unexplained, capped
         self.vcount = Counter()          # kind -> unexplained violation count
+        self.anomalies = Counter()       # probe anomalies: diagnostic, never a verdict
+        self.anomaly_examples = {}
         self.known_hits = Counter()      # finding id -> hits
         self.known_examples = {}
         self.notes = {}
@@ -101,8 +103,16 @@ class Ctx:
             self.violations.append(rec)
         return True
 
+    def anomaly(self, kind, info):
+        """An internal probe saw hooked state it did not expect.  Probes localise faults; they never decide:
+        a refactoring that keeps the behaviour may legitimately change internals."""
+        self.anomalies[kind] += 1
+        self.anomaly_examples.setdefault(kind, info)
+
     def dump(self):
         return {
+            'anomalies': dict(self.anomalies),
+            'anomaly_examples': self.anomaly_examples,
             'counts': dict(self.counts),
             'monitors': dict(self.monitors),
             'states': {k: sorted(v) for k, v in self.states.items()},
